@@ -54,6 +54,8 @@ def warm_quick():
   runs.append(('LinenScope', 'LinenScope_mc.cfg', dict(workers=16, timeout=3000)))
   runs.append(('LinenScope', 'LinenScope_mc_nosep.cfg', dict(workers=16)))
   runs.append(('LinenScope', 'LinenScope_map.cfg', dict(workers=1, timeout=3000)))
+  runs.append(('LinenScope', 'LinenScope_lift_mc.cfg', dict(workers=16, timeout=3000)))
+  runs.append(('LinenScope', 'LinenScope_lift_jit.cfg', dict(workers=1, timeout=3000)))
   for cf in ('Traverse_tree.cfg', 'Traverse_tree_emptykey.cfg', 'Traverse_state.cfg', 'Traverse_state3.cfg'):
     runs.append(('Traverse', cf, dict(workers=1, timeout=1800)))
   runs.append(('StateDict', 'StateDict_restore.cfg', dict(workers=1, timeout=3000)))
